@@ -27,7 +27,7 @@ ASSUMPTIONS = [
 ]
 BUDGET = {"quick": 70, "thorough": 600}
 ROUNDS = {"thorough": 16}
-FLOORS = {"overlay.C04.p_t_judged": {"quick": 100, "thorough": 1500}, "expm_comparisons": 50, "identity_checks": 50, "kinds": 9}
+FLOORS = {"after_update_comparisons": {"quick": 500, "thorough": 5000}, "overlay.C04.p_t_judged": {"quick": 100, "thorough": 1500}, "expm_comparisons": 50, "identity_checks": 50, "kinds": 9}
 
 # SHA-256 of ("%.6f," per value) of the empirical tables at the baseline commit
 EMPIRICAL_SHA = {
@@ -57,7 +57,7 @@ def _cases(tier, seed):
         batch = int(rng.choice([0, 0, 1, 2, 3]))
         if kind in ("JC69", "GeneralJC69", "LG", "WAG"):
             batch = 0
-        out.append({"spec": s, "ts": _ts(rng), "batch": batch})
+        out.append({"spec": s, "ts": _ts(rng), "batch": batch, "batch_subset": [bool(rng.random() < 0.5) for _ in range(4)]})
     return out
 
 
@@ -188,6 +188,36 @@ def _run_case(case):
     C["identity_checks"] += 1
     if abs(flux - 1.0) > 1e-4 * max(1.0, float(np.abs(Qn).max())):
         V.append(tt.viol("C04:p_t:normalisation:" + kind, "expected substitution rate under pi is %.8g, not 1" % flux, spec=spec))
+    # --- after an update of some of the parameters through the public interface, p_t is that of the updated model
+    names_u = {"HKY": ["kappa", "pi"], "GTR": ["rates", "pi"], "GenSym": ["rates", "pi"], "GenNonSym": ["rates", "pi"], "MG94": ["alpha", "beta", "kappa", "pi"]}.get(kind)
+    if names_u and not V:
+        rng_u = np.random.default_rng(abs(hash("u" + str(spec))) % (2**32))
+        for round_ in range(2):
+            s2 = gm.random_subst(rng_u, kind, extreme=False, states=spec.get("k"))
+            sub = [nm for nm in names_u if rng_u.random() < 0.5] or [names_u[int(rng_u.integers(len(names_u)))]]
+            cur = dict(spec) if round_ == 0 else cur
+            for nm in sub:
+                val = s2[nm]
+                if nm == "rates" and kind in ("GenSym", "GenNonSym"):
+                    val = gm.loguniform(rng_u, 0.05, 20, len(spec["rates"])).tolist()
+                if nm == "pi" and kind == "MG94":
+                    val = gm.dirichlet(rng_u, S, 1.0, 5e-3)
+                val = val if isinstance(val, list) else [val]
+                dic["sm." + nm].tensor = torch.tensor(val, dtype=torch.float64)
+                cur[nm] = val if nm in ("rates", "pi") else val[0]
+            q2, pi2 = gm.ref_q(cur, emp)
+            Q2 = ctmc.normalise(q2, pi2)
+            tu = [t for t in ts if t > 0][:2] + [0.0]
+            Pu = model.p_t(torch.tensor(tu, dtype=torch.float64).reshape(-1, 1)).detach().numpy()
+            C["after_update_comparisons"] = C.get("after_update_comparisons", 0) + 1
+            for i, t in enumerate(tu):
+                E = ctmc.p_t(Q2, t)
+                d = np.abs(Pu[i, 0] - E).max()
+                if d > 10 * _tol(list(pi2), rev):
+                    V.append(tt.viol("C04:p_t:after-update:" + kind, "after updating %s, P(%g) differs from expm of the updated model's rate matrix by %.3g" % ("+".join(sub), t, d), spec=cur, updated=sub))
+                    break
+            if V:
+                break
     # --- batched parameters: slice b of the batched model equals the unbatched model
     B = case.get("batch", 0)
     if B:
@@ -203,8 +233,15 @@ def _run_case(case):
                 s2["pi"] = gm.dirichlet(rng, S, 1.0, 5e-3)
         names = {"HKY": ["kappa", "pi"], "GTR": ["rates", "pi"], "GenSym": ["rates", "pi"], "GenNonSym": ["rates", "pi"],
                  "MG94": ["alpha", "beta", "kappa", "pi"]}[kind]
+        # every / some of the parameters carry the sample dimension (the others stay shared, one- dimensional)
+        subset = [nm for nm, on in zip(names, case.get("batch_subset", [])) if on] or names
+        for s2 in specs[1:]:
+            for nm in names:
+                if nm not in subset:
+                    s2[nm] = spec[nm]
+        C["batched_subsets"] = ["+".join(subset) if len(subset) < len(names) else "all"]
         batch = {}
-        for nm in names:
+        for nm in subset:
             vals = [s2[nm] if isinstance(s2[nm], list) else [s2[nm]] for s2 in specs]
             batch[nm] = vals
         try:
